@@ -221,3 +221,68 @@ Section N.
     eapply Hn; eauto.
   Qed.
 End N.
+
+(* ---------------------------------------------------------------------------------------------
+   K09 decides the property on a run log: stated as propositions over the log, K09 = true implies
+   every clause.  (K09 judges the implementation's own log; the theorems above are about the model.) *)
+Definition C09_log_spec (k : n_case) : Prop :=
+  (* safety: everything an honest node was willing to transmit was checked by an honest node and had
+     f+1 support in some round *)
+  (forall t rep r, In t (nc_transmit k) -> In rep (snd t) -> In r rep ->
+     (exists c, In c (nc_checked k) /\ In r (snd c)) /\
+     (exists rd, In rd (nc_rounds k) /\ (S (nc_f k) <= round_support rd r)%nat)) /\
+  (* not reported again while in flight on every honest node *)
+  (forall rd r, In rd (nc_rounds k) -> In r (nr_agreed rd) -> ~ In (wid_of k r) (nr_inflight rd)) /\
+  (* never two different reports for one unit of work at once *)
+  (forall t a b, In t (nc_transmit k) -> In a (snd t) -> In b (snd t) ->
+     a = b \/ forall r r', In r a -> In r' b -> wid_of k r <> wid_of k r') /\
+  (* reported within the window of every recorded obligation whose window was run completely *)
+  (forall w from to, In (w, (from, to)) (nc_live k) -> (to < length (nc_rounds k))%nat ->
+     exists rd r, In rd (rounds_between (nc_rounds k) from to) /\ In r (nr_agreed rd) /\ wid_of k r = w).
+
+Lemma mem_nat_In x l : mem_nat x l = true <-> In x l.
+Proof.
+  unfold mem_nat. rewrite existsb_exists. split.
+  - intros [y [Hy E]]. apply Nat.eqb_eq in E. subst. exact Hy.
+  - intro H. exists x. split; [exact H | apply Nat.eqb_refl].
+Qed.
+
+Lemma rows_eqb_eq a b : rows_eqb a b = true -> a = b.
+Proof.
+  unfold rows_eqb. revert b. induction a as [|x a IH]; intros [|y b]; simpl; try discriminate; [reflexivity|].
+  destruct (Nat.eqb x y) eqn:E; [|discriminate]. apply Nat.eqb_eq in E. subst. intro H. f_equal. apply IH. exact H.
+Qed.
+
+Theorem K09_sound k : K09 k = true -> C09_log_spec k.
+Proof.
+  unfold K09. intro H.
+  destruct (K09_safety k) eqn:Hs; [|discriminate].
+  destruct (K09_not_again k) eqn:Hn; [|discriminate].
+  destruct (K09_single k) eqn:Hg; [|discriminate].
+  rename H into Hl. unfold C09_log_spec. repeat split.
+  - unfold K09_safety in Hs. rewrite forallb_forall in Hs. specialize (Hs t H).
+    rewrite forallb_forall in Hs. specialize (Hs rep H0). rewrite forallb_forall in Hs. specialize (Hs r H1).
+    destruct (checked_by_honest k r) eqn:E; [|discriminate].
+    unfold checked_by_honest in E. apply existsb_exists in E as [c [Hc Hm]]. exists c. split; [exact Hc|].
+    apply mem_nat_In. exact Hm.
+  - unfold K09_safety in Hs. rewrite forallb_forall in Hs. specialize (Hs t H).
+    rewrite forallb_forall in Hs. specialize (Hs rep H0). rewrite forallb_forall in Hs. specialize (Hs r H1).
+    destruct (checked_by_honest k r); [|discriminate].
+    unfold quorum_somewhere in Hs. apply existsb_exists in Hs as [rd [Hrd Hq]]. exists rd. split; [exact Hrd|].
+    apply Nat.leb_le. exact Hq.
+  - intros rd r Hrd Hr Hin. unfold K09_not_again in Hn. rewrite forallb_forall in Hn. specialize (Hn rd Hrd).
+    rewrite forallb_forall in Hn. specialize (Hn r Hr). apply negb_true_iff in Hn.
+    apply memN_false_In in Hn. exact (Hn Hin).
+  - intros t a b Ht Ha Hb. unfold K09_single in Hg. rewrite forallb_forall in Hg. specialize (Hg t Ht).
+    rewrite forallb_forall in Hg. specialize (Hg a Ha). rewrite forallb_forall in Hg. specialize (Hg b Hb).
+    apply orb_true_iff in Hg as [Hg|Hg]; [left; apply rows_eqb_eq; exact Hg|]. right.
+    intros r r' Hr Hr' E. apply negb_true_iff in Hg. unfold share_wid in Hg.
+    assert (X : existsb (fun r0 => existsb (fun r'0 => wid_of k r0 =? wid_of k r'0) b) a = true).
+    { apply existsb_exists. exists r. split; [exact Hr|]. apply existsb_exists. exists r'. split; [exact Hr'|].
+      apply N.eqb_eq. exact E. }
+    congruence.
+  - intros w from to Hin Hlt. unfold K09_live in Hl. rewrite forallb_forall in Hl. specialize (Hl _ Hin). simpl in Hl.
+    apply orb_true_iff in Hl as [Hl|Hl]; [apply Nat.leb_le in Hl; lia|].
+    apply existsb_exists in Hl as [rd [Hrd Hx]]. apply existsb_exists in Hx as [r [Hr E]].
+    exists rd, r. split; [exact Hrd|]. split; [exact Hr|]. apply N.eqb_eq. exact E.
+Qed.
